@@ -18,7 +18,31 @@ def build(ctx):
 
 def gen_array(rng, n):
     """instants with many ties, all kinds mixed"""
-    mode = rng.choice(["random", "fewkeys", "sorted", "reversed", "sawtooth", "nearly", "twokeys", "allsame"])
+    mode = rng.choice(["random", "fewkeys", "sorted", "reversed", "sawtooth", "nearly", "twokeys", "allsame", "runs", "plateaus"])
+    if mode in ("runs", "plateaus"):
+        # a few runs over a few keys, each ascending, descending or constant; plateaus: constant runs of falling keys (the
+        # ranges of a merge level then are in reverse order and all of one value)
+        k = rng.choice([1, 2, 2, 3, 4, 5, 8, 16])
+        keys = sorted({p_C08.rand_inst(rng) for _ in range(k + 3)}, key=p_C08.okey)[:k]
+        nruns = rng.choice([2, 2, 3, 4, 8, rng.randint(2, 40)])
+        cuts = [n * j // nruns for j in range(1, nruns)] if rng.random() < 0.5 or n < 2 * nruns else sorted(rng.sample(range(1, n), nruns - 1))
+        xs, prev = [], 0
+        down = sorted(keys, key=p_C08.okey, reverse=True)
+        for j, c in enumerate(cuts + [n]):
+            if mode == "plateaus":
+                seg = [down[min(j, len(down) - 1)]] * (c - prev)
+            else:
+                seg = [rng.choice(keys) for _ in range(c - prev)]
+                z = rng.random()
+                if z < 0.45:
+                    seg.sort(key=p_C08.okey)
+                elif z < 0.7:
+                    seg.sort(key=p_C08.okey, reverse=True)
+                elif z < 0.85:
+                    seg = [rng.choice(keys)] * len(seg)
+            xs += seg
+            prev = c
+        return mode, xs
     base = [p_C08.rand_inst(rng) for _ in range(max(1, {"fewkeys": 5, "twokeys": 2, "allsame": 1}.get(mode, max(1, n // rng.choice([1, 2, 8])))))]
     xs = [rng.choice(base) for _ in range(n)]
     if mode == "fewkeys" and rng.random() < 0.5:
@@ -70,6 +94,14 @@ def run(ctx):
                 base[:2] = [d[:3] + (255, 0, 0, 0), d[:3] + (10, 0, 0, 1023)]
             xs = [rng.choice(base) for _ in range(n)]
             cases.append(("edge-%dkeys" % k, xs))
+    for n in ([1024, 1025, 1536, 2048, 2049, 3000, 4096, 5000] if not thorough else list(range(1024, 1040)) + list(range(2040, 2056)) + [3000, 4096, 5000, 6001]):
+        for _ in range(4 if thorough else 2):
+            for forced in ("runs", "plateaus"):
+                while True:
+                    mode, xs = gen_array(rng, n)
+                    if mode == forced:
+                        break
+                cases.append((mode, xs))
     ops, chk = [], []
     for mode, xs in cases:
         h = " ".join(hex16(*t) for t in xs)
